@@ -29,13 +29,13 @@ var offerMems = []int64{128000, 256500, 512000, 1000999, 4096000, 4096000}
 var wantMems = []int64{0, 64000, 128000, 256000, 256500, 257000, 512000, 1000500, 1001000, 5000000}
 
 type generator struct {
-	rSat, rMerge, rParse, rOp, rRes, rDesc, rRound, rKind *gen.Rand
+	rSat, rMerge, rParse, rOp, rRes, rDesc, rRound, rKind, rShared *gen.Rand
 }
 
 func newGenerator(seed uint64) *generator {
 	r := gen.NewRand(seed)
 	return &generator{rSat: r.Fork(), rMerge: r.Fork(), rParse: r.Fork(), rOp: r.Fork(), rRes: r.Fork(),
-		rDesc: r.Fork(), rRound: r.Fork(), rKind: r.Fork()}
+		rDesc: r.Fork(), rRound: r.Fork(), rKind: r.Fork(), rShared: r.Fork()}
 }
 
 func (g *generator) pure(i int) (string, pureIn) {
@@ -735,3 +735,118 @@ func (g *generator) noDescSpec(i int) simSpec {
 
 func pick64(r *gen.Rand, xs []uint64) uint64 { return xs[r.Intn(len(xs))] }
 func pick64i(r *gen.Rand, xs []int64) int64  { return xs[r.Intn(len(xs))] }
+
+// ---------------------------------------------------------------- one class, several task roles
+
+// sharedTree: 2-4 task roles that load ONE class (class key "s0"; sometimes a second shared class
+// "s1") whose template constrains zone and kind. Some roles override one of these attributes at the
+// task role or at an aggregator above it (a nearer definition), others leave the template's value
+// alone; both orders occur. Anything the matching code remembers from one descriptor (or from one
+// round) to the next - e.g. an override written into the class's own constraint list - changes
+// where a later, plain role of the same class may run.
+func (g *generator) sharedTree(r *gen.Rand, cl []classSpec) *node {
+	root := &node{Name: "root"}
+	n := r.Range(2, 4)
+	plainSeen, overSeen := false, false
+	for t := 0; t < n; t++ {
+		ci := 0
+		if len(cl) > 1 && r.Chance(1, 3) {
+			ci = 1
+		}
+		c := cl[ci]
+		leaf := &node{Name: fmt.Sprintf("t%d", t), Class: &c, ClassKey: fmt.Sprintf("s%d", ci)}
+		kind := r.Intn(4)
+		if t == n-1 && !plainSeen {
+			kind = 0
+		}
+		if t == n-2 && !overSeen {
+			kind = 1
+		}
+		var over []cst
+		switch kind {
+		case 0: // plain: only the template's constraints apply
+			plainSeen = true
+		case 1: // override an attribute the template constrains, with another value
+			overSeen = true
+			a := c.Cts[r.Intn(len(c.Cts))]
+			vs := attrVals[a.A]
+			v := vs[r.Intn(len(vs))]
+			if v == a.V {
+				v = vs[(r.Intn(len(vs)-1)+1+indexOf(vs, a.V))%len(vs)]
+			}
+			over = []cst{{A: a.A, V: v}}
+		case 2: // override all of them
+			overSeen = true
+			for _, a := range c.Cts {
+				vs := attrVals[a.A]
+				over = append(over, cst{A: a.A, V: vs[r.Intn(len(vs))]})
+			}
+		default: // a constraint on an attribute the template does not mention
+			over = []cst{{A: "rack", V: r.Pick(attrVals["rack"])}}
+		}
+		cur := root
+		if r.Chance(1, 2) { // the override sits on an aggregator above the task role
+			agg := &node{Name: fmt.Sprintf("g%d", t), Cts: over}
+			root.Children = append(root.Children, agg)
+			cur = agg
+		} else {
+			leaf.Cts = over
+		}
+		cur.Children = append(cur.Children, leaf)
+	}
+	return root
+}
+
+func indexOf(xs []string, x string) int {
+	for i, v := range xs {
+		if v == x {
+			return i
+		}
+	}
+	return 0
+}
+
+// sharedSpec: a descriptor case or a round (with pair: two consecutive rounds on one core) over
+// shared classes. The agents offer every (zone, kind) combination the roles may end up asking for,
+// with ample resources, so that the constraints alone decide the placement.
+func (g *generator) sharedSpec(mode string, pair bool) simSpec {
+	r := g.rShared
+	mkClass := func() classSpec {
+		c := classSpec{Mode: r.Pick([]string{"basic", "direct"}), Cpu: 100, Mem: 64000}
+		c.Cts = []cst{{A: "zone", V: r.Pick(attrVals["zone"])}}
+		if r.Chance(2, 3) {
+			c.Cts = append(c.Cts, cst{A: "kind", V: r.Pick(attrVals["kind"])})
+		}
+		if r.Chance(1, 3) {
+			c.Cts = append([]cst{{A: "det", V: r.Pick(attrVals["det"])}}, c.Cts...)
+		}
+		return c
+	}
+	cl := []classSpec{mkClass()}
+	if r.Chance(1, 3) {
+		cl = append(cl, mkClass())
+	}
+	var agents []agentSpec
+	if mode != "desc" {
+		i := 0
+		for _, z := range attrVals["zone"] {
+			if len(agents) >= 4 {
+				break
+			}
+			i++
+			host := fmt.Sprintf("h%d", i)
+			a := agentSpec{Host: host, Attrs: map[string]string{"machine_id": host, "zone": z,
+				"kind": r.Pick(attrVals["kind"]), "det": strings.Join(attrVals["det"], ","), "rack": strings.Join(attrVals["rack"], ",")},
+				Cpu: 4000, Mem: 4096000, Ports: [][2]uint64{{9000, 9100}, {30000, 30100}}}
+			if r.Chance(1, 2) {
+				a.Attrs["kind"] = strings.Join(attrVals["kind"], ",")
+			}
+			agents = append(agents, a)
+		}
+	}
+	sp := simSpec{Mode: mode, Tree: g.sharedTree(r, cl), Agents: agents}
+	if pair {
+		sp.Prelude = &simIn{Mode: mode, Tree: g.sharedTree(r, cl), Agents: agents}
+	}
+	return sp
+}
